@@ -142,6 +142,24 @@ int main(int argc, char** argv)
                 .emit();
         }
     }
+    // optional: a total above 2^31 through the real integrator (the inline sub_calls expression must not truncate)
+    if (argc > 6)
+    {
+        unsigned long long t = (1ULL << 31) + 2 + g.below(5);
+        int w = 3;
+        std::vector<rank_obs> o;
+        std::vector<long long> end;
+        observe<double>(0, (std::size_t) t, w, seed, o, end);
+        for (int r = 0; r != w; ++r)
+        {
+            unsigned long long sub = (unsigned long long) o[(std::size_t) r].calls;
+            unsigned long long b = hep::discard_before(t, (std::size_t) r, (std::size_t) w);
+            unsigned long long b1 = (r + 1 == w) ? t : hep::discard_before(t, (std::size_t) r + 1, (std::size_t) w);
+            unsigned long long a = hep::discard_after(t, sub, (std::size_t) r, (std::size_t) w);
+            vt::ev("Wide").raw("t", "[" + std::to_string(t >> 20) + "," + std::to_string(t & ((1ULL << 20) - 1)) + "]")
+                .i("w", w).i("r", r).a("before", limbs(b)).a("sub", limbs(sub)).a("after", limbs(a)).a("next", limbs(b1)).s("src", "mpi_plain-2^31").emit();
+        }
+    }
     vt::out().close();
     return 0;
 }
